@@ -3,6 +3,7 @@
   Clocks are unbounded `Int`s, skews unbounded `Nat`s; statements are about the full `Sp.process`.
 -/
 import PysamlModel.Proofs.Sp
+import PysamlModel.Proofs.SpTimes
 import PysamlModel.Props.C04
 
 namespace C05
@@ -193,12 +194,115 @@ theorem C05_model_meets_spec_sound (cfg : Cfg) (env : Env) (r : Response) :
         | none => rfl
         | some u => simp
 
-/-- Completeness half, FULL statement (not proved yet at this revision; see DESIGN.md):
-    strictly inside all windows, an otherwise valid Response is accepted. -/
-def C05_inside_accepted_full : Prop :=
-  ∀ (cfg : Cfg) (env : Env) (r : Response),
-    (process cfg env (sanitiseTimes env r)).isIdentity = true → strictlyInside cfg env r = true →
-    (process cfg env r).isIdentity = true
+/-- `strictlyInside` unpacked -/
+theorem strictlyInside_inv {cfg : Cfg} {env : Env} {r : Response} (h : strictlyInside cfg env r = true) :
+    (env.now - r.issueInstant < 86400 ∧ r.issueInstant - env.now < 86400) ∧ ∀ a ∈ visible r, insideA env a := by
+  unfold strictlyInside at h
+  simp only [Bool.and_eq_true, decide_eq_true_eq] at h
+  refine ⟨h.1, ?_⟩
+  intro a ha
+  have := List.all_eq_true.mp h.2 a ha
+  simp only [Bool.and_eq_true] at this
+  obtain ⟨⟨hc, hs⟩, hsub⟩ := this
+  have mk : ∀ (nb nooa : Option Int),
+      ((match nooa with | some t => decide (env.now < t) | none => true) &&
+       (match nb with | some t => decide (t < env.now) | none => true)) = true → insideOpt env.now nb nooa := by
+    intro nb nooa hh
+    simp only [Bool.and_eq_true] at hh
+    constructor
+    · intro t ht; rw [ht] at hh; simpa using hh.1
+    · intro t ht; rw [ht] at hh; simpa using hh.2
+  refine ⟨?_, ?_, ?_⟩
+  · intro c hcc; rw [hcc] at hc; exact mk _ _ hc
+  · intro s hss t ht
+    have := List.all_eq_true.mp hs s hss
+    exact (mk none s.sessionNooa this).1 t ht
+  · intro s hss sc hsc d hd
+    rw [hss] at hsub
+    have := List.all_eq_true.mp hsub sc hsc
+    rw [hd] at this
+    exact mk _ _ this
+
+/-- C05, completeness: strictly inside all validity windows an otherwise valid Response — its
+    time-sanitised copy is accepted — is accepted; for every clock, skew and message. -/
+theorem C05_inside_accepted (cfg : Cfg) (env : Env) (r : Response)
+    (hvalid : (process cfg env (sanitiseTimes env r)).isIdentity = true)
+    (hinside : strictlyInside cfg env r = true) :
+    (process cfg env r).isIdentity = true := by
+  obtain ⟨hii, hin⟩ := strictlyInside_inv hinside
+  cases hres : process cfg env (sanitiseTimes env r) with
+  | noIdentity => rw [hres] at hvalid; cases hvalid
+  | rejected e => rw [hres] at hvalid; cases hvalid
+  | identity o' =>
+    obtain ⟨hb, cf, rS, rs', p', aS', hp1, _, hv', haS', hrs', heither', a', rest', s', srest', hused', hauthn', _⟩ :=
+      process_identity_inv hres
+    rw [pass1_san] at hp1
+    obtain ⟨henv', hpa'⟩ := verify_some_inv hv'
+    have henv := verifyEnvelope_san hii henv'
+    obtain ⟨p, hpa, _, _, hused⟩ := parseAssertion_times (Rel.refl _) hin hpa'
+    -- the shape of the used list
+    obtain ⟨_, _, _, hu', _, _⟩ := parseAssertion_inv hpa'
+    rw [decOf_san, plainOf_san, ← List.map_append] at hu'
+    rw [hu'] at hused'
+    have hshape : ∃ a rest s srest, decOf r ++ plainOf r = a :: rest ∧ a.authn = s :: srest := by
+      cases hl : decOf r ++ plainOf r with
+      | nil => rw [hl] at hused'; cases hused'
+      | cons a rest =>
+        rw [hl] at hused'
+        simp only [List.map_cons, List.cons.injEq] at hused'
+        have hm : (sanA env a).authn = a.authn.map (sanAuthn env) := rfl
+        rw [← hused'.1, hm] at hauthn'
+        cases hal : a.authn with
+        | nil => rw [hal] at hauthn'; cases hauthn'
+        | cons s srest => exact ⟨a, rest, s, srest, rfl, hal⟩
+    obtain ⟨a, rest, s, srest, hl, hauthn⟩ := hshape
+    have hident : ∀ (q : Parsed) (aS : Bool), q.used = decOf r ++ plainOf r →
+        (cfg.wantEither && !rS && !aS) = false →
+        pass2 cfg env { cameFrom := cf } r = .ok (some q, aS) → (process cfg env r).isIdentity = true := by
+      intro q aS hq heith hp2
+      unfold process
+      simp only [hb, Bool.not_true, Bool.false_eq_true, if_false, hp1, hp2, heith]
+      rw [hq, hl]
+      simp only [hauthn, Outcome.isIdentity]
+    have hv : verify cfg env rs' { cameFrom := cf } r = .ok (some p) := by
+      unfold verify; rw [henv, hpa]
+    cases hrsv : rs' with
+    | true =>
+      subst hrsv
+      apply hident p true hused
+      · cases hw : cfg.wantEither <;> simp
+      · unfold pass2; rw [hv]
+    | false =>
+      subst hrsv
+      have haSf : aS' = false := by
+        cases h : aS' with
+        | false => rfl
+        | true => have := haS' h; cases this
+      have heith : ∀ aS, (cfg.wantEither && !rS && !aS) = false := by
+        intro aS
+        rw [haSf] at heither'
+        cases hw : cfg.wantEither <;> cases hr : rS <;> simp_all
+      have hwa := hrs' rfl
+      rcases parseAssertion_forced_or hpa with hf | hf
+      · apply hident p true hused (heith true)
+        unfold pass2 verify; rw [henv, hf]
+      · apply hident p false hused (heith false)
+        unfold pass2
+        have hv1 : verify cfg env true { cameFrom := cf } r = .error .sigMissingAssertion := by
+          unfold verify; rw [henv, hf]
+        rw [hv1]
+        simp only [Err.isSignatureError, if_true, hwa, Bool.false_eq_true, if_false, hv]
+
+/-- The completeness half of the decidable specification holds of the model. -/
+theorem C05_model_meets_spec_complete (cfg : Cfg) (env : Env) (r : Response) :
+    specC05Complete cfg env r (process cfg env r) = true := by
+  unfold specC05Complete
+  cases hv : (process cfg env (sanitiseTimes env r)).isIdentity with
+  | false => simp
+  | true =>
+    cases hp : strictlyInside cfg env r with
+    | false => simp
+    | true => simp [C05_inside_accepted cfg env r hv hp]
 
 /-! Non-vacuity -/
 private def okAssertion : Assertion :=
